@@ -351,6 +351,45 @@ func short(s string, n int) string {
 	return s
 }
 
+// gapFilledLate: some batch holds a packet of a conversation whose timestamp lies strictly between two packets of the
+// same conversation that earlier batches imported and that are more than five minutes apart with nothing of that
+// conversation imported in between.
+func gapFilledLate(cp *ref.Capture, batches [][]int) bool {
+	batchOf := map[int]int{}
+	for bi, b := range batches {
+		for _, f := range b {
+			batchOf[f] = bi
+		}
+	}
+	for bi := 1; bi < len(batches); bi++ {
+		earlier := map[int][]time.Time{} // conversation -> sorted packet times of batches < bi
+		var now []*ref.Pkt
+		for _, p := range cp.Packets {
+			if p.Conv < 0 {
+				continue
+			}
+			switch b := batchOf[p.File]; {
+			case b < bi:
+				earlier[p.Conv] = append(earlier[p.Conv], p.TS)
+			case b == bi:
+				now = append(now, p)
+			}
+		}
+		for _, ts := range earlier {
+			sort.Slice(ts, func(i, j int) bool { return ts[i].Before(ts[j]) })
+		}
+		for _, p := range now {
+			ts := earlier[p.Conv]
+			for i := 1; i < len(ts); i++ {
+				if ts[i].Sub(ts[i-1]) > 5*time.Minute && p.TS.After(ts[i-1]) && p.TS.Before(ts[i]) {
+					return true
+				}
+			}
+		}
+	}
+	return false
+}
+
 // RunFileSet runs the references and all histories of one file set.
 func RunFileSet(fs FileSet, deadline time.Time) (res result, timedOut bool) {
 	cp, err := ref.Build(fs.Files)
@@ -443,6 +482,13 @@ func RunFileSet(fs FileSet, deadline time.Time) (res result, timedOut bool) {
 				for bi, b := range h.Batches {
 					for _, f := range b {
 						batchOf[f] = bi
+					}
+				}
+				// a batch brings packets of a conversation that lie inside an idle period of more than five minutes
+				// (the importer's inactivity timeout) between packets of that conversation imported by earlier batches
+				if gapFilledLate(cp, h.Batches) {
+					for i := n0; i < len(res.findings); i++ {
+						res.findings[i].key += " a-later-batch-fills-an-idle-period-of-more-than-five-minutes"
 					}
 				}
 				for _, pr := range cp.SplitPairs() {
